@@ -14,7 +14,7 @@ func init() {
 	register(&Def{
 		ID:    "C12",
 		Level: "exploration",
-		Rule: "bounded-exhaustive: from every root shape in {1,2,3 channels} x {(L,K): K<=bound} every operation sequence up to depth d over the alphabet {Alloc, Slice (all valid ranges), Append (every ordered pair of live views inside C03's domain, incl. self, plus operands with a partly filled last frame when the append fits the capacity), AppendSample, SetSample (first/last position), Write, WriteStriped, channel-view SetSample}, at most 6 live views, each sequence re-executed from the root on the real code and compared with the Go-slice reference model after its last step (all views over length and capacity, all storages through the hook, address identity); " +
+		Rule: "bounded-exhaustive: from every root shape in {1,2,3 channels} x {(L,K): K<=bound} every operation sequence up to depth d over the alphabet {Alloc, Slice (all valid ranges), Append (every ordered pair of live views inside C03's domain, incl. self, plus operands with a partly filled last frame when the append fits the capacity), AppendSample, SetSample (first/last position), Write, WriteStriped, channel-view SetSample, an Append of a fresh buffer with another channel count (has to be refused and to change nothing)}, at most 6 live views, each sequence re-executed from the root on the real code and compared with the Go-slice reference model after its last step (all views over length and capacity, all storages through the hook, address identity); " +
 			"plus seeded random histories of 50..200 steps over larger shapes (<=8 channels, <=64 frames, <=12 live views with retirement) and six element types, checked after every step; " +
 			"distinct = distinct operation sequences (hash of the operation list incl. root shape) ; non-trivial = the sequence contains at least one mutating operation",
 		Assume: []string{"Append only inside the domain of C03 (aligned operands, no source overlapping the destination's spare capacity)", "Slice only with valid ranges (invalid ones are C02's subject)",
@@ -55,6 +55,8 @@ func (o c12op) String() string {
 		return fmt.Sprintf("v%d.wstriped(%d)", o.V, o.I)
 	case "chanset":
 		return fmt.Sprintf("v%d.chan(%d).set(%d)", o.V, o.S, o.I)
+	case "appendforeign":
+		return fmt.Sprintf("v%d.append(fresh buffer with another channel count, %d frames: must be refused)", o.V, o.I)
 	case "drop":
 		return fmt.Sprintf("drop(v%d)", o.V)
 	}
@@ -112,6 +114,7 @@ func (cw *c12world) enumerate(maxViews int, reduced bool, allocShape [2]int) []c
 			}
 		}
 		if !reduced {
+			ops = append(ops, c12op{Kind: "appendforeign", V: vi, I: 1 + vi%2})
 			ops = append(ops, c12op{Kind: "write", V: vi, I: m.Len + 1})
 			if m.Len%m.C == 0 {
 				ops = append(ops, c12op{Kind: "wstriped", V: vi, I: m.Len / m.C})
@@ -152,6 +155,16 @@ func (cw *c12world) apply(o c12op, c *core.Ctx) (ps []mon.Problem) {
 			c.Obs("writes_visible_through_other_views", 1)
 		}
 		w.SetSample(v, o.I, w.NextStamp())
+	case "appendforeign":
+		// an Append the library has to refuse (C15 decides whether it panics):
+		// the model does not change
+		dst := w.Views[o.V]
+		f := w.T.Alloc(signal.Allocator{Channels: dst.M.C%3 + 1, Length: o.I, Capacity: o.I})
+		for i := 0; i < f.Len(); i++ {
+			f.SetSample(i, w.NextStamp())
+		}
+		core.Guard(func() { dst.B.Append(f) })
+		c.Obs("appends_of_a_buffer_with_another_channel_count_attempted", 1)
 	case "append":
 		dst, src := w.Views[o.V], w.Views[o.U]
 		grow := dst.M.Cap < dst.M.Len+src.M.Len
@@ -397,8 +410,10 @@ func runC12Random(c *core.Ctx) {
 				} else {
 					o = c12op{Kind: "append", V: vi, U: ui}
 				}
-			case r < 12:
+			case r < 11:
 				o = c12op{Kind: "appendsample", V: vi}
+			case r < 12:
+				o = c12op{Kind: "appendforeign", V: vi, I: rnd.Range(0, 3)}
 			case r < 15 && m.Len > 0:
 				o = c12op{Kind: "set", V: vi, I: rnd.Intn(m.Len)}
 			case r < 16:
